@@ -1,8 +1,62 @@
-import AlgoVerif.Common
-/-! Line-protocol component for C08 — not built yet. -/
+import AlgoVerif.Model.C08
+import AlgoVerif.Spec.C08
+/-!
+Line-protocol component for C08 (and the part of it C09 reuses).
+
+A case is the grammar description (`terms …`, `nonterms …`, `start S`, `prod H : body`; each answered
+`ok`) followed by ops, each evaluated on the described grammar (ops do not chain):
+
+* `emptyfree | singlefree | unreachable | cycles | leftrec | leftfactor | cnf | cnfstart | cnfterm | cnfbin`
+  → `ok <showGrammar of the Model's result>` | `panic` | `hang`;
+* `lang <op|id> <k>` → `ok <n> <w₁>|<w₂>|…`: the sentences of length ≤ k of the Model's result
+  (`langK`), sorted, words separated by spaces, `ε` for the empty sentence.
+-/
 namespace AlgoVerif.C08.Driver
+open AlgoVerif AlgoVerif.Gram AlgoVerif.C08
+
+def showOutcome : Outcome G → String
+  | .ok g => "ok " ++ showGrammar g
+  | .panic => "panic"
+  | .diverge => "hang"
+
+def showSentence (w : List String) : String := if w.isEmpty then "ε" else " ".intercalate w
+
+def showLang (g : G) (k : Nat) : String :=
+  let ws := sortDedup ((langK g k).map showSentence)
+  s!"ok {ws.length} {"|".intercalate ws}"
+
+/-- ops shared by the C08 and C09 drivers; `none` = not one of them -/
+def commonOp (g : G) (ws : List String) : Option String :=
+  match ws with
+  | [op] => (applyOp op g).map showOutcome
+  | ["lang", op, k] =>
+    match applyOp op g, k.toNat? with
+    | some (.ok g'), some k => some (showLang g' k)
+    | some .panic, some _ => some "panic"
+    | some .diverge, some _ => some "hang"
+    | _, _ => none
+  | _ => none
+
+def runWith (extra : G → List String → Option String) (ops : List String) : List String := Id.run do
+  let mut g : SGrammar := SGrammar.empty
+  let mut out : Array String := #[]
+  for line in ops do
+    let (g', consumed) := parseGrammarLine g line
+    if consumed then
+      g := g'
+      out := out.push "ok"
+    else
+      let gn := normalize g
+      let ws := words line
+      match commonOp gn ws with
+      | some s => out := out.push s
+      | none =>
+        match extra gn ws with
+        | some s => out := out.push s
+        | none => out := out.push "bad-op"
+  return out.toList
 
 def runCase (_hdr : List String) (ops : List String) : List String :=
-  ops.map fun _ => "bad-case"
+  runWith (fun _ _ => none) ops
 
 end AlgoVerif.C08.Driver
